@@ -39,9 +39,33 @@ def cumulativeSum (add : α → α → α) (d : Data κ α) (dim : String) : Exc
   if dim ∉ d.dims then .error .value
   else .ok { d with values := mapAxis (cumsumList add) (d.ext dim) d.values (d.index dim) }
 
-/-- axis argument of a NumPy call -/
-inductive Axis | none | name (s : String) | pos (i : Int)
+/-- one entry of a tuple-valued `axis` argument -/
+inductive AxItem | nm (s : String) | ix (i : Int)
 deriving Repr
+
+/-- axis argument of a NumPy call -/
+inductive Axis | none | name (s : String) | pos (i : Int) | tuple (items : List AxItem)
+deriving Repr
+
+/-- the loop of `__array_function__` over a tuple axis: every entry becomes the NAME of the dimension it
+    consumes; the first offending entry raises (unknown name → ValueError, position out of range → IndexError) -/
+def resolveItems (dims : List String) : List AxItem → Except Err (List String)
+  | [] => .ok []
+  | .nm s :: r => if s ∉ dims then .error .value else (resolveItems dims r).map (s :: ·)
+  | .ix i :: r =>
+    let n : Int := dims.length
+    if i ≥ n ∨ i < -n then .error .index
+    else (resolveItems dims r).map (dims.getD (if i < 0 then i + n else i).toNat "" :: ·)
+
+/-- joint reduction over several named dimensions: they are moved last, flattened C-order into one axis and
+    reduced; exactly those names and their coordinates disappear -/
+def reduceDims (f : List α → α) (d : Data κ α) (names : List String) : Except Err (Data κ α) := do
+  let keep := d.dims.filter (fun x => x ∉ names)
+  let d1 ← d.reorder (keep ++ names)
+  let kshape := d1.values.shape.take keep.length
+  let rshape := d1.values.shape.drop keep.length
+  .ok { d1 with dims := keep, coords := d1.coords.take keep.length,
+                values := reduceAxis f (reshapeC d1.values (kshape ++ [size rshape])) keep.length }
 
 /-- `__array_function__` for a reduction: axis by name or position removes exactly that
     dimension (repaired: the pinned tree kept the dimension for an integer axis) -/
@@ -60,6 +84,13 @@ def npReduce (fname : String) (f : List α → α) (d : Data κ α) (ax : Axis) 
     else
       let k := (if i < 0 then i + n else i).toNat
       (reduceDim f d (d.dims.getD k "")).map (fun r => .inl (r.addHist ("numpy." ++ fname) ["axis"]))
+  | .tuple items =>
+    if items = [] then .error .other      -- `axis=()` is outside the modelled alphabet (never generated)
+    else do
+      let names ← resolveItems d.dims items
+      if ¬ names.Nodup then .error .value           -- NumPy: duplicate value in 'axis'
+      else if names.length = d.dims.length then .ok (.inr (f d.values.data))
+      else (reduceDims f d names).map (fun r => .inl (r.addHist ("numpy." ++ fname) ["axis"]))
 
 def npReduceOld (fname : String) (f : List α → α) (d : Data κ α) (ax : Axis) :
     Except Err (Data κ α ⊕ α) :=
@@ -74,6 +105,7 @@ def npReduceOld (fname : String) (f : List α → α) (d : Data κ α) (ax : Axi
     else
       let k := (if i < 0 then i + n else i).toNat
       (reduceDim f d (d.dims.getD k "")).map (fun r => .inl (r.addHist ("numpy." ++ fname) ["axis"]))
+  | .tuple _ => .error .other
 
 /-- `__array_ufunc__`, unary -/
 def npUnary (fname : String) (f : α → α) (d : Data κ α) : Data κ α :=
